@@ -15,6 +15,20 @@ _mtypes = {'method_call': 1,
            'signal': 4}
 
 
+def _argPathMatches(arg, val):
+    """
+    argNpath semantics: equal, or whichever of the two ends with '/' is a
+    prefix of the other
+    """
+    if not isinstance(arg, str):
+        return False
+    return (
+        arg == val
+        or (val.endswith('/') and arg.startswith(val))
+        or (arg.endswith('/') and val.startswith(arg))
+    )
+
+
 class Rule :
     """
     Represents a single match rule
@@ -45,20 +59,24 @@ class Rule :
                     return
 
             if hasattr(self, 'path_namespace'):
+                ns = self.path_namespace.rstrip('/')
                 if (
                     m.path is None
-                    or not m.path.startswith(self.path_namespace)
+                    or not (m.path == ns or m.path.startswith(ns + '/'))
                 ):
                     return
 
-            if hasattr(self, 'args') and m.body is not None:
+            body = m.body if m.body is not None else []
+
+            if hasattr(self, 'args'):
                 for idx, val in self.args:
-                    if idx >= len(m.body) or m.body[idx] != val:
+                    if idx >= len(body) or body[idx] != val:
                         return
 
-            if hasattr(self, 'arg_paths') and m.body is not None:
+            if hasattr(self, 'arg_paths'):
                 for idx, val in self.arg_paths:
-                    if idx >= len(m.body) or not m.body[idx].startswith(val):
+                    if idx >= len(body) or not _argPathMatches(
+                            body[idx], val):
                         return
 
             # XXX arg0namespace -- Not quite sure how this one works
